@@ -384,4 +384,32 @@ theorem choose_chooser (r : Rule) (jobs : Jobs) : Chooser jobs (choose r jobs) :
     rw [this] at hm
     cases hm
 
+/-! ### local search -/
+
+theorem rebuildChoose_chooser (jobs : Jobs) (old : List Entry) (target : Nat) (order : List (Nat × Nat)) :
+    Chooser jobs (rebuildChoose jobs old target order) := by
+  constructor
+  · intro s j h
+    exact mem_readyJobs.1 (firstBest_some h)
+  · intro s h j hj hr
+    have hm : j ∈ readyJobs jobs s := mem_readyJobs.2 ⟨hj, hr⟩
+    rw [firstBest_none h] at hm
+    cases hm
+
+theorem firstImproving_some {jobs : Jobs} {S : List Entry} {mk : Int} {m : Nat} {ops : List (Nat × Nat)}
+    {is : List Nat} {new : List Entry} {mk' : Int}
+    (h : firstImproving jobs S mk m ops is = some (new, mk')) :
+    (∃ i, new = rebuild jobs S m (swapAdj ops i)) ∧ mk' = makespan new ∧ mk' < mk := by
+  induction is with
+  | nil => simp [firstImproving] at h
+  | cons i is ih =>
+    simp only [firstImproving] at h
+    split at h
+    · rename_i hlt
+      simp only [Option.some.injEq, Prod.mk.injEq] at h
+      obtain ⟨h1, h2⟩ := h
+      subst h1 h2
+      exact ⟨⟨i, rfl⟩, rfl, hlt⟩
+    · exact ih h
+
 end Solvor.Sched
